@@ -690,8 +690,483 @@ def run(ctx):
                 "(0, 0.5+-ulp, 1-2^-53, the probability +-ulp); a case is non-trivial when at least one coordinate went through clip "
                 "(mutators, SBX) / the velocity is not all zero (position update); distinct = distinct (operator, box, parents, options, tape). "
                 "generator cases: RandomGenerator over boxes with and without a declared precision, scripted draws incl. 0 and 1-2^-53 and dyadic ties")
+    rhist = {"runs": {}, "evaluated_vectors": 0, "failed_evaluations": 0, "coordinates_on_a_bound": 0, "generation_steps": 0,
+             "breed_passes": 0, "runs_aborted_by_complex_power": 0, "runs_skipped_nan": 0}
+    run_level(ctx, rhist)
+    ctx.extra.update({"run_histogram": rhist})
     ctx.extra.update({"operator_histogram": hist, "generator_histogram": ghist,
                       "near_boundary": ghist["near_tie_coordinates"]})
+
+
+
+# --------------------------------------------------------------------------------------------------------------
+# run level: the five algorithms
+# --------------------------------------------------------------------------------------------------------------
+RUN_BOXES = [
+    # (bounds, precision) per parameter
+    [((-2.0, 3.0), None), ((0.0, 1e-3), None)],
+    [((-7.5, -2.25), None)],
+    [((0.0, 1.0), None), ((0.0, 1.0), None), ((0.0, 1.0), None)],
+    [((10, 20), 0.5), ((-1.0, 1.0), None)],
+    [((1e6, 1e12), None), ((-5.0, 5.0), 1e-3)],
+    [((1.0, 1.0 + 1e-9), None), ((-3, 3), None)],
+    [((0.0, 1.0), 0.25), ((-100.0, 100.0), 1.0), ((0.0, 1e-6), None), ((2.0, 2.5), None)],
+    [((-1e15, 1e15), None), ((0.0, 1.0), None)],
+    [((1 / 3, 2 / 3), None), ((-0.1, 0.7), None)],
+]
+
+
+def index_of(objs, o):
+    for i, x in enumerate(objs):
+        if x is o:
+            return i
+    return None
+
+
+class RunAbort(Exception):
+    pass
+
+
+def enc_vecs(vs):
+    return ll(vs, lambda v: ll(v, fl))
+
+
+def enc_rr(rr):
+    return ll(rr, enc_vecs)
+
+
+def enc_script(s):
+    return ("{| s_events := %s; s_rerolls := %s; s_keep := %s; s_keep_arch := %s; s_vel := %s; s_tapes := %s; s_rerolls2 := %s |}" % (
+        ll(s.get("events", []), lambda b: "mk_breed %s %s %s %s %s" % (nl(b[0]), nl(b[1]), enc_tape(b[2]), enc_tape(b[3]), enc_tape(b[4]))),
+        enc_rr(s.get("rerolls", [])), ll(s.get("keep", []), nl), ll(s.get("keep_arch", []), nl),
+        enc_vecs(s.get("vel", [])), ll(s.get("tapes", []), enc_tape), enc_rr(s.get("rerolls2", []))))
+
+
+def run_level(ctx, rhist):
+    import contextlib
+    import io
+    import logging
+    import random as pyrandom
+    import artap.operators as ops
+    import artap.algorithm_genetic as ag
+    import artap.algorithm_NSGAII as an
+    import artap.algorithm_swarm as asw
+    from artap.archive import Archive
+    from artap.problem import Problem
+    rng = ctx.rng
+    ev = []
+    state = {"fail_p": 0.0, "streak": {}, "rec": None}
+
+    class LogProblem(Problem):
+        def set(self, **kw):
+            self.name = "c08"
+            self.parameters = kw["parameters"]
+            self.costs = [{'name': 'F1'}, {'name': 'F2'}]
+
+        def evaluate(self, individual):
+            x = individual.vector
+            k = id(individual)
+            fail = False
+            if state["fail_p"] and state["streak"].get(k, 0) < 4 and rng.random() < state["fail_p"]:
+                fail = True
+            ev.append(("eval", individual, list(x), fail))
+            if fail:
+                state["streak"][k] = state["streak"].get(k, 0) + 1
+                raise RuntimeError("scripted failure")
+            state["streak"][k] = 0
+            xs = [float(v) for v in x]
+            return [sum(v * v for v in xs), sum((v - 1.0) ** 2 for v in xs)]
+
+    # ---- class-level recording wrappers (restored in `finally`)
+    saved = []
+
+    def patch(obj, name, new):
+        saved.append((obj, name, obj.__dict__[name] if name in obj.__dict__ else getattr(obj, name)))
+        setattr(obj, name, new)
+
+    def install(rec):
+        o_cross = ops.SimulatedBinaryCrossover.cross
+
+        def cross(self, p1, p2):
+            rec.cut()
+            a, b = list(p1), list(p2)
+            r = o_cross(self, p1, p2)
+            ev.append(("cross", a, b, rec.cut(), list(r[0]), list(r[1]), self.probability))
+            return r
+        patch(ops.SimulatedBinaryCrossover, "cross", cross)
+        for cls in (ops.PmMutator, ops.UniformMutator, ops.NonUniformMutation):
+            def mk(cls):
+                o_mut = cls.mutate
+
+                def mutate(self, parent, current_iteration=0):
+                    rec.cut()
+                    a = list(parent)
+                    r = o_mut(self, parent, current_iteration)
+                    ev.append(("mutate", cls.__name__, a, rec.cut(), list(r), self.probability))
+                    return r
+                return mutate
+            patch(cls, "mutate", mk(cls))
+        o_sel = ops.TournamentSelector.select
+
+        def select(self, individuals):
+            r = o_sel(self, individuals)
+            ev.append(("select", index_of(individuals, r)))
+            return r
+        patch(ops.TournamentSelector, "select", select)
+        o_copy = ops.CopySelector.select
+
+        def copy_select(self, individuals):
+            src = list(individuals)
+            r = o_copy(self, individuals)
+            ev.append(("copysel", src, list(r)))
+            return r
+        patch(ops.CopySelector, "select", copy_select)
+        o_choice = Archive.rand_choice
+
+        def rand_choice(self):
+            r = o_choice(self)
+            ev.append(("arch_choice", self, index_of(self._contents, r)))
+            return r
+        patch(Archive, "rand_choice", rand_choice)
+        o_gen = ag.GeneticAlgorithm.generate
+
+        def generate(self, parents, archive=None):
+            ev.append(("gen_enter", parents, list(parents), archive, list(archive._contents) if archive is not None else []))
+            r = o_gen(self, parents, archive)
+            ev.append(("gen_exit", list(r)))
+            return r
+        patch(ag.GeneticAlgorithm, "generate", generate)
+        o_trunc = an.nondominated_truncate
+
+        def truncate(population, size):
+            pop = list(population)
+            r = o_trunc(population, size)
+            ev.append(("truncate", pop, list(r)))
+            return r
+        patch(an, "nondominated_truncate", truncate)
+        for cls in (asw.OMOPSO, asw.SMPSO, asw.PSOGA):
+            def mkp(cls):
+                o_pos = cls.update_position
+
+                def update_position(self, individuals):
+                    objs = list(individuals)
+                    before = [list(i.vector) for i in objs]
+                    vel = [list(i.features['velocity']) for i in objs]
+                    o_pos(self, individuals)
+                    ev.append(("position", objs, before, vel, [list(i.vector) for i in objs]))
+                return update_position
+            patch(cls, "update_position", mkp(cls))
+        o_rg = ops.RandomGenerator.generate
+
+        def rgenerate(self):
+            r = o_rg(self)
+            ev.append(("init", [list(v) for v in r]))
+            return r
+        patch(ops.RandomGenerator, "generate", rgenerate)
+
+    def uninstall():
+        while saved:
+            obj, name, old = saved.pop()
+            setattr(obj, name, old)
+
+    # ---- helpers to read the event log
+    def take_evals(events, pos, objs):
+        """the evaluation of `objs` in order starting at events[pos]: returns (new pos, rerolls per object)"""
+        rr = []
+        for o in objs:
+            got = []
+            while pos < len(events) and events[pos][0] == "eval" and events[pos][1] is o:
+                got.append(events[pos][2])
+                pos += 1
+                if not events[pos - 1][3]:
+                    break
+            if not got:
+                raise RunAbort("no evaluation recorded for an individual that should have been evaluated")
+            rr.append(got)
+        return pos, rr
+
+    def skip_to(events, pos, kinds):
+        while pos < len(events) and events[pos][0] not in kinds:
+            if events[pos][0] in ("eval", "cross", "mutate", "position", "gen_enter", "gen_exit", "truncate", "copysel"):
+                raise RunAbort("unexpected %s event while looking for %s" % (events[pos][0], kinds))
+            pos += 1
+        return pos
+
+    def breed_events(events, pos, end, n_pop, arch_obj):
+        """select/select|arch_choice, cross, mutate, mutate groups in events[pos:end]"""
+        out = []
+        probs = {}
+        while pos < end:
+            idx = []
+            while pos < end and events[pos][0] in ("select", "arch_choice"):
+                e = events[pos]
+                if e[0] == "select":
+                    idx.append(e[1])
+                elif e[1] is arch_obj:
+                    idx.append(n_pop + e[2])
+                pos += 1
+            if pos >= end:
+                break
+            if len(idx) != 2 or any(i is None for i in idx) or events[pos][0] != "cross":
+                raise RunAbort("breeding pass does not start with two selections and a crossover")
+            c = events[pos]
+            if pos + 2 >= len(events) or events[pos + 1][0] != "mutate" or events[pos + 2][0] != "mutate":
+                raise RunAbort("crossover not followed by two mutations")
+            m1, m2 = events[pos + 1], events[pos + 2]
+            if m1[1] != "PmMutator" or m2[1] != "PmMutator":
+                raise RunAbort("GA mutation is not PmMutator")
+            probs["pc"] = c[6]
+            probs["pm"] = m1[5]
+            out.append((idx[0], idx[1], c[3], m1[3], m2[3]))
+            pos += 3
+        return out, probs
+
+    def vec_of(o):
+        return list(o.vector)
+
+    def assemble(name, alg, events, N):
+        """builds the model's inputs and the observation from the event log"""
+        pos = skip_to(events, 0, ("init",))
+        pop0 = events[pos][1]
+        pos += 1
+        first = pos
+        # initial evaluation: individuals in order of first appearance
+        objs = []
+        p = pos
+        while p < len(events) and events[p][0] == "eval":
+            if not any(events[p][1] is o for o in objs):
+                objs.append(events[p][1])
+            p += 1
+        pos, got = take_evals(events, pos, objs)
+        rr0 = [g[1:] for g in got]
+        if len(objs) != len(pop0):
+            raise RunAbort("initial evaluation covers %d individuals, generator produced %d" % (len(objs), len(pop0)))
+        scripts = []
+        probs = {"pc": 1.0, "pm": 0.0}
+        arch0 = []
+        pop_objs = list(objs)
+        arch_objs = []
+        if name in ("NSGAII", "EpsMOEA"):
+            first_gen = True
+            while True:
+                pos = skip_to(events, pos, ("gen_enter",))
+                if pos >= len(events):
+                    break
+                ge = events[pos]
+                parents_live, parents, arch_obj, arch = ge[1], ge[2], ge[3], ge[4]
+                if first_gen:
+                    if name == "EpsMOEA":
+                        arch0 = [index_of(pop_objs, a) for a in arch]
+                        arch_objs = list(arch)
+                    first_gen = False
+                if len(parents) != len(pop_objs) or any(a is not b for a, b in zip(parents, pop_objs)):
+                    raise RunAbort("population at generate() is not the population the previous step left")
+                if name == "EpsMOEA" and (len(arch) != len(arch_objs) or any(a is not b for a, b in zip(arch, arch_objs))):
+                    raise RunAbort("archive at generate() is not the archive the previous step left")
+                end = pos + 1
+                while events[end][0] != "gen_exit":
+                    end += 1
+                bev, pr = breed_events(events, pos + 1, end, len(parents), arch_obj)
+                probs.update(pr)
+                offs = events[end][1]
+                pos, got = take_evals(events, end + 1, offs)
+                s = {"events": bev, "rerolls": [g[1:] for g in got]}
+                if name == "NSGAII":
+                    pos = skip_to(events, pos, ("truncate",))
+                    merged, res = events[pos][1], events[pos][2]
+                    pos += 1
+                    if len(merged) != len(offs) + len(pop_objs) or any(a is not b for a, b in zip(merged, offs)):
+                        raise RunAbort("truncation input is not offsprings + copies of the population")
+                    for c, o in zip(merged[len(offs):], pop_objs):
+                        if [float(x) for x in c.vector] != [float(x) for x in o.vector]:
+                            raise RunAbort("copy of a population member has a different vector")
+                    s["keep"] = [index_of(merged, r) for r in res]
+                    pop_objs = list(res)
+                else:
+                    # the live population list and the archive after this generation = at the next generate / at the end
+                    nxt = skip_to(events, pos, ("gen_enter",))
+                    if nxt < len(events):
+                        pop_after, arch_after = events[nxt][2], events[nxt][4]
+                    else:
+                        pop_after, arch_after = list(parents_live), list(alg.archive._contents)
+                    s["keep"] = [index_of(pop_objs + offs, o) for o in pop_after]
+                    s["keep_arch"] = [index_of(arch_objs + offs, o) for o in arch_after]
+                    pop_objs, arch_objs = list(pop_after), list(arch_after)
+                if any(i is None for i in s.get("keep", []) + s.get("keep_arch", [])):
+                    raise RunAbort("a survivor is neither an offspring nor a member of the previous population / archive")
+                scripts.append(s)
+        else:
+            while True:
+                pos = skip_to(events, pos, ("copysel",))
+                if pos >= len(events):
+                    break
+                src, copies = events[pos][1], events[pos][2]
+                keep = [index_of(pop_objs, o) for o in src]
+                if any(k is None for k in keep):
+                    raise RunAbort("the swarm that is copied contains an individual the previous step did not leave")
+                pos = skip_to(events, pos + 1, ("position",))
+                _, pobjs, before, vel, after = events[pos]
+                if len(pobjs) != len(copies) or any(a is not b for a, b in zip(pobjs, copies)):
+                    raise RunAbort("update_position is not applied to the copies of the swarm")
+                pos += 1
+                n = len(pobjs)
+                tapes = [[] for _ in range(n)]
+                if name == "OMOPSO":
+                    for i in range(n):
+                        pos = skip_to(events, pos, ("mutate",))
+                        m = events[pos]
+                        want = "UniformMutator" if i % 3 == 0 else "NonUniformMutation"
+                        if m[1] != want:
+                            raise RunAbort("turbulence of particle %d uses %s, expected %s" % (i, m[1], want))
+                        tapes[i] = m[3]
+                        probs["pm"] = m[5]
+                        pos += 1
+                elif name == "SMPSO":
+                    for i in range(0, n, 6):
+                        pos = skip_to(events, pos, ("mutate",))
+                        m = events[pos]
+                        if m[1] != "PmMutator":
+                            raise RunAbort("SMPSO turbulence uses %s" % m[1])
+                        tapes[i] = m[3]
+                        probs["pm"] = m[5]
+                        pos += 1
+                pos = skip_to(events, pos, ("eval",))
+                pos, got = take_evals(events, pos, pobjs)
+                s = {"keep": keep, "vel": vel, "tapes": tapes, "rerolls": [g[1:] for g in got]}
+                new_objs = list(pobjs)
+                if name == "PSOGA":
+                    end = pos
+                    while end < len(events) and events[end][0] in ("select", "arch_choice"):
+                        end += 1
+                    bev, pr = breed_events(events, pos, end + 3, n, None)
+                    if len(bev) != 1:
+                        raise RunAbort("PSOGA generation without exactly one crossover")
+                    probs.update(pr)
+                    pos = end + 3
+                    two = []
+                    p = pos
+                    while p < len(events) and events[p][0] == "eval":
+                        if not any(events[p][1] is o for o in two):
+                            two.append(events[p][1])
+                        p += 1
+                    pos, got2 = take_evals(events, pos, two)
+                    if len(two) != 2:
+                        raise RunAbort("PSOGA evaluated %d GA offspring, expected 2" % len(two))
+                    s["events"] = bev
+                    s["rerolls2"] = [g[1:] for g in got2]
+                    new_objs += two
+                pop_objs = new_objs
+                scripts.append(s)
+        if any(e[0] == "eval" for e in events[pos:]):
+            raise RunAbort("evaluations after the last modelled step")
+        submitted = [e[2] for e in events if e[0] == "eval"]
+        obs = (submitted, [vec_of(o) for o in pop_objs], [vec_of(o) for o in arch_objs])
+        return {"pop0": pop0, "rr0": rr0, "arch0": arch0, "scripts": scripts, "pc": probs["pc"], "pm": probs["pm"]}, obs
+
+    ALGOS = {"NSGAII": (an.NSGAII, "ANsga2"), "EpsMOEA": (ag.EpsMOEA, "AEpsMoea"), "OMOPSO": (asw.OMOPSO, "AOmopso"),
+             "SMPSO": (asw.SMPSO, "ASmpso"), "PSOGA": (asw.PSOGA, "APsoga")}
+    cases, expected, meta = [], [], []
+
+    def one_run(name, box, N, G, fail_p, pm_opt, correspond=True):
+        cls, coq_algo = ALGOS[name]
+        bounds = [b for b, _ in box]
+        precs = [p for _, p in box]
+        params = make_params(bounds, precs)
+        problem = LogProblem(parameters=params)
+        problem.logger.setLevel(logging.CRITICAL)
+        alg = cls(problem)
+        alg.options['max_population_number'] = G
+        alg.options['max_population_size'] = N
+        alg.options['verbose_level'] = 0
+        if pm_opt is not None:
+            alg.options['prob_mutation'] = pm_opt
+            for attr in ("mutator", "uniform_mutator", "non_uniform_mutator"):
+                if getattr(alg, attr, None) is not None:
+                    getattr(alg, attr).probability = pm_opt
+        seed = rng.getrandbits(32)
+        pyrandom.seed(seed)
+        del ev[:]
+        state["fail_p"] = fail_p
+        state["streak"] = {}
+        inp = {"algorithm": name, "box": [list(b) for b in bounds], "precision": precs, "population_size": N, "generations": G,
+               "failure_probability": fail_p, "prob_mutation": pm_opt, "python_random_seed": seed}
+        crashed = None
+        with Recorder(ops) as rec:
+            install(rec)
+            try:
+                with contextlib.redirect_stdout(io.StringIO()):
+                    alg.run()
+            except Exception as e:
+                crashed = e
+            finally:
+                uninstall()
+        events = list(ev)
+        rhist["runs"][name] = rhist["runs"].get(name, 0) + 1
+        evals = [e for e in events if e[0] == "eval"]
+        rhist["evaluated_vectors"] += len(evals)
+        rhist["failed_evaluations"] += sum(1 for e in evals if e[3])
+        # ---- direct oracle: every vector the objective saw is a real vector of the right dimension inside the box
+        for k, e in enumerate(evals):
+            v = e[2]
+            bad = None
+            if len(v) != len(bounds):
+                bad = "has dimension %d, the problem has %d parameters" % (len(v), len(bounds))
+            else:
+                for i, (lb, ub) in enumerate(bounds):
+                    why = outside(v[i], lb, ub, precs[i])
+                    if why:
+                        bad = "coordinate %d = %r is %s (box [%r, %r], precision %r)" % (i, v[i], why, lb, ub, precs[i])
+                        break
+                    if float(v[i]) in (float(lb), float(ub)):
+                        rhist["coordinates_on_a_bound"] += 1
+            if bad and len(ctx.oracle_failures) < 40:
+                ctx.oracle_failures.append({"what": "%s run: evaluated design #%d %s" % (name, k, bad), "input": inp, "observed": v,
+                                            "required": "every evaluated design inside the box (up to 1e-12 / half the declared precision)",
+                                            "match": {"kind": "out_of_box", "op": "run/" + name}})
+        ctx.count(("run", name, tuple(bounds), N, G, fail_p, pm_opt, seed), nontrivial=G > 1 or name != "NSGAII")
+        if crashed is not None:
+            if isinstance(crashed, TypeError) and "complex" in str(crashed):
+                rhist["runs_aborted_by_complex_power"] += 1        # pow(negative, fraction) inside SBX / PM: a crash, not an out-of-box design
+                return
+            ctx.mismatches.append({"what": "%s run raised %r" % (name, crashed), "case": inp})
+            return
+        if not correspond:
+            return
+        try:
+            mi, obs = assemble(name, alg, events, N)
+        except RunAbort as e:
+            ctx.mismatches.append({"what": "%s run does not have the step structure of the model: %s" % (name, e), "case": inp})
+            return
+        allv = [x for v in obs[0] + obs[1] + obs[2] for x in v] + [x for s in mi["scripts"] for v in s.get("vel", []) for x in v]
+        allv += [x[1] for s in mi["scripts"] for t in s.get("tapes", []) for x in t]
+        allv += [x[1] for s in mi["scripts"] for b in s.get("events", []) for t in b[2:] for x in t]
+        if any(bad_number(x) for x in allv):
+            rhist["runs_skipped_nan"] += 1
+            return
+        rhist["generation_steps"] += len(mi["scripts"])
+        rhist["breed_passes"] += sum(len(s.get("events", [])) for s in mi["scripts"])
+        cases.append("{| r_algo := %s; r_N := %s; r_pc := %s; r_pm := %s; r_params := %s; r_pop0 := %s; r_rr0 := %s; r_arch0 := %s; r_scripts := %s |}" % (
+            coq_algo, nl(N), fl(mi["pc"]), fl(mi["pm"]), enc_params(bounds), enc_vecs(mi["pop0"]), enc_rr(mi["rr0"]),
+            ll(mi["arch0"], nl), ll(mi["scripts"], enc_script)))
+        expected.append("(Some (%s, %s, %s))" % (enc_vecs(obs[0]), enc_vecs(obs[1]), enc_vecs(obs[2])))
+        meta.append(dict(inp, evaluated=len(obs[0]), final_population=len(obs[1])))
+        if name == "PSOGA" and N == 2 and G == 1 and not any(s.get("name") == "run" for s in ctx.samples):
+            ctx.samples.append({"name": "run", "input": inp, "evaluated_vectors": obs[0]})
+
+    sizes = ctx.pick([2, 3, 5, 8], [2, 3, 5, 8, 12, 20])
+    gens = ctx.pick([1, 2, 4], [1, 2, 4, 7])
+    reps = ctx.pick(1, 6)
+    for name in ALGOS:
+        for N in sizes:
+            for G in gens:
+                for _ in range(reps):
+                    box = rng.choice(RUN_BOXES)
+                    fail_p = rng.choice([0.0, 0.0, 0.0, 0.15, 0.4])
+                    pm_opt = rng.choice([None, None, 0.5, 1.0])
+                    one_run(name, box, N, G, fail_p, pm_opt)
+        one_run(name, RUN_BOXES[0], 1, 2, 0.0, None, correspond=False)       # population of one: direct oracle only
+    ctx.coq_compare("c08_run", HEADER, "run_case", "run_obs", "c08_run_run", "run_obs_eqb", cases, expected, meta,
+                    shard=ctx.pick(8, 16))
 
 
 LEVEL_TEXT = ("Machine-checked Coq theorems over a model of Operator.clip, the three mutators, SBX, the swarm position update and "
